@@ -391,6 +391,17 @@ int main ()
     { std::thread th ([&]() { apply_basis (B1); }); th.join (); } JR c3 = convert (s);
     apply_basis (B2); JR c4 = convert (s);
     O.put (JR(c3 - c4)); };
+  // many settings of the process-wide basis between two uses: Mueller (J) is evaluated under the first basis, then N settings
+  // are made (alternating between the named bases, the last one is the second basis), then every identity is checked: any
+  // memory of the first evaluation keyed by a counter of settings that wraps would survive here
+  OP("o.c02.manysettings") { BasisRestore r; unsigned long N = std::stoul (A.next()); apply_basis (A); auto s=A.stokes(); auto j=A.jones();
+    Matrix<4,4,Rat> M0 = Mueller (j); Stokes<Rat> t0 = transform (s, j); JR g0 = j; Matrix<4,4,Rat> G0 = Mueller (j, g0); (void) M0; (void) t0; (void) G0;
+    for (unsigned long i=1; i<N; i++) Pauli::basis().set_basis ((i & 1) ? Signal::Circular : Signal::Linear);
+    apply_basis (A);
+    Stokes<Rat> t = transform (s, j);
+    O.put (Stokes<Rat>(t - coherency (JR(JR(j*convert(s))*herm(j)))));
+    JR jcopy = j; Matrix<4,4,Rat> M = Mueller (jcopy); O.put (Stokes<Rat>(t - Stokes<Rat>(M*s)));
+    Matrix<4,4,Rat> G = Mueller (j, jcopy); Stokes<Rat> gs = G*s; O.put (Stokes<Rat>(gs - Stokes<Rat>(t + t))); };
   OP("o.c02.transformC") { BasisRestore r; apply_basis (A); auto s=A.cstokes(); auto j=A.jones();
     Stokes<CRat> t = transform (s, j); Matrix<4,4,Rat> M = Mueller (j);
     for (unsigned i=0;i<4;i++) { CRat acc (0); for (unsigned k=0;k<4;k++) acc += CRat(M[i][k])*s[k]; O.put (CRat(t[i] - acc)); } };
